@@ -137,7 +137,16 @@ def call_pool(rng, n_per_kind):
     # calls that leave the format to be guessed from the file name (fmt=None), several operations on ONE name: names that match
     # the patterns of two formats with different capabilities (POSCAR* + *.xyz, ...) resolve per operation, whatever was asked
     # of the same name before; unambiguous names as controls
-    for name in ("POSCAR_traj.xyz", "CHGCAR.mol2", "LOCPOT_1.sdf", "mol.FCIDUMP.pdb", "POSCAR.fchk", "AECCAR0.xyz", "POSCAR.cube", "geom.xyz", "POSCAR"):
+    names = ["POSCAR_traj.xyz", "CHGCAR.mol2", "LOCPOT_1.sdf", "mol.FCIDUMP.pdb", "POSCAR.fchk", "AECCAR0.xyz", "POSCAR.cube", "geom.xyz", "POSCAR"]
+    # ... and names built from the registry itself: a prefix pattern of one format joined with a suffix pattern of another one whose
+    # set of operations differs
+    ops = ("load_one", "load_many", "dump_one", "dump_many")
+    caps = {k: tuple(hasattr(m, o) for o in ops) for k, m in FORMAT_MODULES.items()}
+    pre = [(k, pt[:-1]) for k, m in FORMAT_MODULES.items() for pt in m.PATTERNS if pt.endswith("*") and not pt.startswith("*")]
+    suf = [(k, pt[1:]) for k, m in FORMAT_MODULES.items() for pt in m.PATTERNS if pt.startswith("*.") and "*" not in pt[1:]]
+    pairs = sorted((a + "_r" + b) for ka, a in pre for kb, b in suf if caps[ka] != caps[kb])
+    names += [n for n in rng.sample(pairs, min(len(pairs), 2 * n_per_kind)) if n not in names]
+    for name in names:
         for op in ("dump_one", "dump_many", "load_one", "load_many"):
             calls.append({"kind": "guess_" + op, "fmt": None, "name": name})
     for i, c in enumerate(calls):
